@@ -95,8 +95,14 @@ Proof.
   - symmetry. apply (testbit_above x w); assumption.
 Qed.
 
-Lemma sel_iv_push v xs x : sel_iv v xs -> x < 2 ^ iwidth v ->
-  exists v', iv_push v x = Ok v' /\ sel_iv v' (xs ++ [x]) /\ iwidth v' = iwidth v.
+(* the data of the integer vector has exactly the words its bits need (what RawVector::load insists on) *)
+Definition iv_exact (v : intvec) : Prop := lenN (rdata (idata v)) = (rlen (idata v) + 63) / 64.
+
+Lemma iv_exact_default : iv_exact iv_default.
+Proof. reflexivity. Qed.
+
+Lemma sel_iv_push_gen v xs x : sel_iv v xs -> x < 2 ^ iwidth v ->
+  exists v', iv_push v x = Ok v' /\ sel_iv v' (xs ++ [x]) /\ iwidth v' = iwidth v /\ (iv_exact v -> iv_exact v').
 Proof.
   intros (Hw & Hlen & Hrl & Hwf & Hnw & Hitems) Hx.
   unfold iv_push, raw_push_int. set (w := iwidth v) in *. replace (w =? 0) with false by lia.
@@ -109,7 +115,11 @@ Proof.
   { unfold d0. destruct (N.ltb_spec (lenN (rdata (idata v)) * 64) (rlen (idata v) + w)); [rewrite lenN_app; change (lenN [0]) with 1|]; lia. }
   assert (Hidx : (rlen (idata v) + w - 1) / 64 < lenN d0) by lia.
   destruct (write_int_bits d0 (rlen (idata v)) x w Hwf0 Hw Hidx) as (a' & Hwr & Hwf' & Hl' & Hb').
-  rewrite Hwr. cbn [bind]. eexists. split; [reflexivity|]. split; [|reflexivity].
+  rewrite Hwr. cbn [bind]. eexists. split; [reflexivity|]. split; [|split; [reflexivity|]].
+  2:{ unfold iv_exact. cbn [idata rlen rdata]. intros Hex.
+      assert (Hl2 : lenN a' = lenN d0) by (unfold lenN; rewrite Hl'; reflexivity). rewrite Hl2.
+      unfold d0. destruct (N.ltb_spec (lenN (rdata (idata v)) * 64) (rlen (idata v) + w)) as [G|G];
+        [rewrite lenN_app; change (lenN [0]) with 1|]; lia. }
   unfold sel_iv. cbn [iwidth ilen idata rlen rdata]. fold w.
   split; [exact Hw|]. split; [rewrite lenN_app, Hlen; reflexivity|].
   split; [rewrite lenN_app, Hrl; change (lenN [x]) with 1; rewrite N.mul_add_distr_r; lia|]. split; [exact Hwf'|].
@@ -123,6 +133,23 @@ Proof.
     inversion Hy; subst y. assert (i = lenN xs) by lia. subst i. split; [exact Hx|]. intros k Hk.
     rewrite Hb', Hrl. replace ((lenN xs * w <=? lenN xs * w + k) && (lenN xs * w + k <? lenN xs * w + w)) with true by lia.
     f_equal. lia.
+Qed.
+
+Lemma sel_iv_push v xs x : sel_iv v xs -> x < 2 ^ iwidth v ->
+  exists v', iv_push v x = Ok v' /\ sel_iv v' (xs ++ [x]) /\ iwidth v' = iwidth v.
+Proof.
+  intros Hv Hx. destruct (sel_iv_push_gen v xs x Hv Hx) as (v' & E & H1 & H2 & _). exists v'. auto.
+Qed.
+
+Lemma sel_iv_push_all_gen v xs ys : sel_iv v xs -> Forall (fun y => y < 2 ^ iwidth v) ys ->
+  exists v', iv_push_all v ys = Ok v' /\ sel_iv v' (xs ++ ys) /\ iwidth v' = iwidth v /\ (iv_exact v -> iv_exact v').
+Proof.
+  revert v xs. induction ys as [|y t IH]; intros v xs Hv Hall; cbn [iv_push_all].
+  - exists v. rewrite app_nil_r. auto.
+  - inversion Hall as [|? ? Hy Ht]; subst.
+    destruct (sel_iv_push_gen v xs y Hv Hy) as (v1 & E1 & Hv1 & Hw1 & Hx1). rewrite E1. cbn [bind].
+    destruct (IH v1 (xs ++ [y]) Hv1) as (v' & E' & Hv' & Hw' & Hx'); [rewrite Hw1; exact Ht|].
+    exists v'. split; [exact E'|]. split; [rewrite <- app_assoc in Hv'; exact Hv'|]. split; [congruence|auto].
 Qed.
 
 Lemma sel_iv_push_all v xs ys : sel_iv v xs -> Forall (fun y => y < 2 ^ iwidth v) ys ->
@@ -175,8 +202,8 @@ Proof.
   assert (2 ^ iwidth v <= 2 ^ 64) by (apply N.pow_le_mono_r; lia). lia.
 Qed.
 
-(* pack() keeps the contents *)
-Lemma sel_iv_pack v xs : sel_iv v xs -> exists v', iv_pack v = Ok v' /\ sel_iv v' xs.
+(* pack() keeps the contents (hence the length) and the exactness of the data *)
+Lemma sel_iv_pack_gen v xs : sel_iv v xs -> exists v', iv_pack v = Ok v' /\ sel_iv v' xs /\ (iv_exact v -> iv_exact v').
 Proof.
   intros Hv. unfold iv_pack. destruct (ilen v =? 0); [exists v; auto|].
   rewrite (sel_iv_items v xs Hv). cbn [bind].
@@ -187,13 +214,16 @@ Proof.
   assert (Hnw : 1 <= nw <= 64).
   { unfold nw. rewrite bit_len_spec by exact Hm. destruct (N.eqb_spec (list_max xs) 0); [lia|].
     assert (N.log2 (list_max xs) < 64) by (apply N.log2_lt_pow2; lia). lia. }
-  destruct (sel_iv_push_all (mkiv 0 nw raw_new) [] xs (sel_iv_empty nw Hnw)) as (v' & E & Hv' & _).
+  destruct (sel_iv_push_all_gen (mkiv 0 nw raw_new) [] xs (sel_iv_empty nw Hnw)) as (v' & E & Hv' & _ & Hx').
   - cbn [iwidth]. apply Forall_forall. intros x Hx. pose proof (list_max_ge xs x Hx) as Hle.
     destruct (N.eq_dec (list_max xs) 0) as [Hz|Hz].
     + assert (x = 0) by lia. subst x. apply N.neq_0_lt_0, N.pow_nonzero. lia.
     + pose proof (bit_len_bounds (list_max xs) ltac:(lia)) as [_ Hub]. fold nw in Hub. lia.
-  - rewrite E. cbn [bind]. exists v'. split; [reflexivity|exact Hv'].
+  - rewrite E. cbn [bind]. exists v'. split; [reflexivity|]. split; [exact Hv'|]. intros _. apply Hx'. reflexivity.
 Qed.
+
+Lemma sel_iv_pack v xs : sel_iv v xs -> exists v', iv_pack v = Ok v' /\ sel_iv v' xs.
+Proof. intros Hv. destruct (sel_iv_pack_gen v xs Hv) as (v' & E & H & _). exists v'. auto. Qed.
 
 (* ================================================================ (3) the query-side scan *)
 
@@ -263,27 +293,29 @@ Lemma fill_long_spec t b B : bv_repr b B -> forall n k start1 long lv it,
     fill_long t b n start1 long it (nth_opt (oi_R t B) k) = Ok (long', it', nth_opt (oi_R t B) (k + N.of_nat n)) /\
     sel_iv long' (lv ++ lv') /\ iwidth long' = 64 /\ lenN lv' = N.of_nat n /\
     oi_inv t B it' /\ oi_mid t B it' = skipN (oi_R t B) (k + N.of_nat n + 1) /\
-    forall i x, i < N.of_nat n -> nth_opt (ones (t_bits t B)) (k + i) = Some x -> nthN lv' i = Some (x - start1).
+    (forall i x, i < N.of_nat n -> nth_opt (ones (t_bits t B)) (k + i) = Some x -> nthN lv' i = Some (x - start1)) /\
+    (iv_exact long -> iv_exact long').
 Proof.
   intros Hrep. destruct (repr_facts b B Hrep) as (HL & HLlt & _).
   induction n as [|n IH]; intros k start1 long lv it Hlong Hw Hinv Hmid Hk.
   - exists long, it, []. cbn [fill_long]. change (N.of_nat 0) with 0. rewrite N.add_0_r, app_nil_r.
     split; [reflexivity|]. split; [exact Hlong|]. split; [exact Hw|]. split; [reflexivity|].
-    split; [exact Hinv|]. split; [exact Hmid|]. intros i x Hi. lia.
+    split; [exact Hinv|]. split; [exact Hmid|]. split; [intros i x Hi; lia|auto].
   - cbn [fill_long]. destruct (nth_opt_lt_Some (ones (t_bits t B)) k) as [x0 Hx0]; [rewrite lenN_ones; lia|].
     rewrite nth_opt_R, Hx0. cbn [option_map opt_unwrap bind snd].
     pose proof (ones_lt_len _ _ _ Hx0) as Hx0len. rewrite t_bits_len in Hx0len.
-    destruct (sel_iv_push long lv (x0 - start1) Hlong) as (long1 & E1 & Hlong1 & Hw1); [rewrite Hw; lia|].
+    destruct (sel_iv_push_gen long lv (x0 - start1) Hlong) as (long1 & E1 & Hlong1 & Hw1 & Hx1); [rewrite Hw; lia|].
     rewrite E1. cbn [bind].
     destruct (oi_next_spec t b B it Hrep Hinv) as (it1 & E2 & Hinv1 & Hmid1). rewrite E2. cbn [bind].
     rewrite Hmid, nth_opt_hd, nth_opt_skipN, N.add_0_r.
     rewrite Hmid, tl_skipN in Hmid1.
     destruct (IH (k + 1) start1 long1 (lv ++ [x0 - start1]) it1 Hlong1 ltac:(congruence) Hinv1 Hmid1 ltac:(lia))
-      as (long' & it' & lv' & E3 & H1 & H2 & H3 & H4 & H5 & H6).
+      as (long' & it' & lv' & E3 & H1 & H2 & H3 & H4 & H5 & H6 & H7).
     rewrite E3. replace (k + 1 + N.of_nat n) with (k + N.of_nat (S n)) in * by lia.
     exists long', it', ((x0 - start1) :: lv'). split; [reflexivity|].
     split; [rewrite <- app_assoc in H1; exact H1|]. split; [exact H2|].
     split; [unfold lenN in *; cbn [length]; lia|]. split; [exact H4|]. split; [exact H5|].
+    split; [|auto].
     intros i x Hi Hx. cbn [nthN]. destruct (N.eqb_spec i 0) as [->|Hi0].
     + rewrite N.add_0_r in Hx. congruence.
     + apply H6; [lia|]. replace (k + 1 + (i - 1)) with (k + i) by lia. exact Hx.
@@ -299,29 +331,31 @@ Lemma fill_short_spec sp m t b B : bv_repr b B -> forall n k start1 short shv it
       = Ok (short', it', nth_opt (oi_R t B) (k + 64 * N.of_nat n)) /\
     sel_iv short' (shv ++ shv') /\ iwidth short' = 64 /\ lenN shv' = N.of_nat n /\
     oi_inv t B it' /\ oi_mid t B it' = skipN (oi_R t B) (k + 64 * N.of_nat n + 1) /\
-    forall j x, j < N.of_nat n -> nth_opt (ones (t_bits t B)) (k + 64 * j) = Some x -> nthN shv' j = Some (x - start1).
+    (forall j x, j < N.of_nat n -> nth_opt (ones (t_bits t B)) (k + 64 * j) = Some x -> nthN shv' j = Some (x - start1)) /\
+    (iv_exact short -> iv_exact short').
 Proof.
   intros Hrep. destruct (repr_facts b B Hrep) as (HL & HLlt & _).
   induction n as [|n IH]; intros k start1 short shv it Hshort Hw Hinv Hmid Hk.
   - exists short, it, []. cbn [fill_short]. change (N.of_nat 0) with 0. rewrite N.mul_0_r, N.add_0_r, app_nil_r.
     split; [reflexivity|]. split; [exact Hshort|]. split; [exact Hw|]. split; [reflexivity|].
-    split; [exact Hinv|]. split; [exact Hmid|]. intros i x Hi. lia.
+    split; [exact Hinv|]. split; [exact Hmid|]. split; [intros i x Hi; lia|auto].
   - cbn [fill_short]. pose proof (Hk 0 ltac:(lia)) as Hk0. rewrite N.mul_0_r, N.add_0_r in Hk0.
     destruct (nth_opt_lt_Some (ones (t_bits t B)) k) as [x0 Hx0]; [rewrite lenN_ones; lia|].
     rewrite nth_opt_R, Hx0. cbn [option_map opt_unwrap bind snd].
     pose proof (ones_lt_len _ _ _ Hx0) as Hx0len. rewrite t_bits_len in Hx0len.
-    destruct (sel_iv_push short shv (x0 - start1) Hshort) as (short1 & E1 & Hshort1 & Hw1); [rewrite Hw; lia|].
+    destruct (sel_iv_push_gen short shv (x0 - start1) Hshort) as (short1 & E1 & Hshort1 & Hw1 & Hx1); [rewrite Hw; lia|].
     rewrite E1. cbn [bind]. change select_BLOCK_SIZE with 64. change (64 - 1) with 63.
     destruct (oi_nth_spec sp m t b B it 63 Hrep Hinv) as (it1 & E2 & Hinv1 & Hmid1). rewrite E2. cbn [bind].
     rewrite Hmid, nth_opt_skipN. replace (k + 1 + 63) with (k + 64) by lia.
     rewrite Hmid, skipN_skipN in Hmid1. replace (k + 1 + (63 + 1)) with (k + 64 + 1) in Hmid1 by lia.
     destruct (IH (k + 64) start1 short1 (shv ++ [x0 - start1]) it1 Hshort1 ltac:(congruence) Hinv1 Hmid1)
-      as (short' & it' & shv' & E3 & H1 & H2 & H3 & H4 & H5 & H6).
+      as (short' & it' & shv' & E3 & H1 & H2 & H3 & H4 & H5 & H6 & H7).
     { intros j Hj. specialize (Hk (j + 1) ltac:(lia)). lia. }
     rewrite E3. replace (k + 64 + 64 * N.of_nat n) with (k + 64 * N.of_nat (S n)) in * by lia.
     exists short', it', ((x0 - start1) :: shv'). split; [reflexivity|].
     split; [rewrite <- app_assoc in H1; exact H1|]. split; [exact H2|].
     split; [unfold lenN in *; cbn [length]; lia|]. split; [exact H4|]. split; [exact H5|].
+    split; [|auto].
     intros j x Hj Hx. cbn [nthN]. destruct (N.eqb_spec j 0) as [->|Hj0].
     + rewrite N.mul_0_r, N.add_0_r in Hx. congruence.
     + apply H6; [lia|]. replace (k + 64 + 64 * (j - 1)) with (k + 64 * j) by lia. exact Hx.
@@ -382,13 +416,32 @@ Record ss_inv (t : transf) (b : bitvec) (B : list bool) (s : N) (st : ss_build) 
   si_sit_mid : oi_mid t B (sb_sample_iter st) = skipN (oi_R t B) (4096 * s + 1);
   si_value : sb_value st = nth_opt (oi_R t B) (4096 * s);
   si_it_inv : oi_inv t B (sb_iter st);
-  si_it_mid : oi_mid t B (sb_iter st) = skipN (oi_R t B) (4096 * s + 1)
+  si_it_mid : oi_mid t B (sb_iter st) = skipN (oi_R t B) (4096 * s + 1);
+  (* the counts BitVector::load / SelectSupport::load check: every superblock before the last one adds
+     exactly 4096 entries to long or exactly 64 to short, the last one between 1 and that many *)
+  si_x_samples : iv_exact (sb_samples st);
+  si_x_long : iv_exact (sb_long st);
+  si_x_short : iv_exact (sb_short st);
+  si_cnt : (lenN lv + 4095) / 4096 + (lenN shv + 63) / 64 = s;
+  si_full : 4096 * s <= count (t_bits t B) -> lenN lv mod 4096 = 0 /\ lenN shv mod 64 = 0;
+  si_lv_c : lenN lv <= count (t_bits t B);
+  si_shv_c : 64 * lenN shv <= count (t_bits t B) + 63
 }.
 
 (* what the finished (or packed) arrays say *)
 Definition ss_arrays (t : transf) (B : list bool) (samples long short : intvec) : Prop :=
   exists sv lv shv, sel_iv samples sv /\ sel_iv long lv /\ sel_iv short shv /\
     lenN sv = 2 * nsb_of t B /\ forall s, s < nsb_of t B -> sb_good (ones (t_bits t B)) sv lv shv s.
+
+(* the sizes of the finished (or packed) arrays: exactly the words their bits need, two samples per superblock,
+   long superblocks + short superblocks = superblocks in the rounded-up arithmetic of long_superblocks() /
+   short_superblocks(), and the bounds that keep the three arrays below 2^64 bits *)
+Definition ss_counts (t : transf) (b : bitvec) (B : list bool) (samples long short : intvec) : Prop :=
+  iv_exact samples /\ iv_exact long /\ iv_exact short /\
+  ilen samples = 2 * nsb_of t B /\
+  (ilen long + 4095) / 4096 + (ilen short + 63) / 64 = nsb_of t B /\
+  ilen long <= count (t_bits t B) /\ 64 * ilen short <= count (t_bits t B) + 63 /\
+  ilen long * log4_of b <= 4096 * lenB B.
 
 Lemma R_beyond t B a c : count (t_bits t B) <= a -> count (t_bits t B) <= c ->
   nth_opt (oi_R t B) a = nth_opt (oi_R t B) c /\ skipN (oi_R t B) (a + 1) = skipN (oi_R t B) (c + 1).
@@ -400,25 +453,38 @@ Qed.
 Lemma ss_loop_spec sp m t b B : bv_repr b B -> forall fuel s st sv lv shv pos,
   ss_inv t b B s st sv lv shv pos -> s <= nsb_of t B -> nsb_of t B < s + N.of_nat fuel ->
   exists st', ss_loop sp m t b fuel (log4_of b) st = Ok st' /\
-              ss_arrays t B (sb_samples st') (sb_long st') (sb_short st').
+              ss_arrays t B (sb_samples st') (sb_long st') (sb_short st') /\
+              ss_counts t b B (sb_samples st') (sb_long st') (sb_short st').
 Proof.
   intros Hrep. destruct (repr_facts b B Hrep) as (HL & HLlt & _).
   pose proof (t_count_ones_spec t b B Hrep) as Hcnt.
   set (P := ones (t_bits t B)). set (c := count (t_bits t B)).
   assert (HcL : c <= lenB B) by (unfold c; rewrite <- (t_bits_len t B); apply count_le_length).
   induction fuel as [|fuel IH]; intros s st sv lv shv pos Hinv Hs Hfuel; [lia|].
-  cbn [ss_loop]. destruct Hinv as [I1 I1w I2 I2w I3 I3w I4 I5 I6 I7 I8 I9 I10 I11 I12 I13 I14 I15 I16].
+  cbn [ss_loop]. destruct Hinv as [I1 I1w I2 I2w I3 I3w I4 I5 I6 I7 I8 I9 I10 I11 I12 I13 I14 I15 I16 X1 X2 X3 C1 C2 C3 C4].
+  fold c in C2, C3, C4.
   rewrite I11, nth_opt_R. fold P. destruct (nth_opt P (4096 * s)) as [p0|] eqn:Ep0; cbn [option_map].
   2:{ (* no further superblock *)
-      exists st. split; [reflexivity|]. exists sv, lv, shv.
+      exists st. split; [reflexivity|].
       assert (c <= 4096 * s).
       { destruct (N.le_gt_cases c (4096 * s)) as [G|G]; [exact G|].
         destruct (nth_opt_lt_Some P (4096 * s)) as [x Hx]; [unfold P; rewrite lenN_ones; exact G|]. congruence. }
-      assert (s = nsb_of t B) by (unfold nsb_of in *; fold c in Hs |- *; lia). subst s.
-      split; [exact I1|]. split; [exact I2|]. split; [exact I3|]. split; [exact I4|exact I10]. }
+      assert (Es : s = nsb_of t B) by (unfold nsb_of in *; fold c in Hs |- *; lia).
+      revert C1. subst s. intros C1.
+      split.
+      - exists sv, lv, shv.
+        split; [exact I1|]. split; [exact I2|]. split; [exact I3|]. split; [exact I4|exact I10].
+      - pose proof I1 as (_ & L1 & _). pose proof I2 as (_ & L2 & _). pose proof I3 as (_ & L3 & _).
+        unfold ss_counts. rewrite L1, L2, L3. fold c.
+        split; [exact X1|]. split; [exact X2|]. split; [exact X3|]. split; [exact I4|]. split; [exact C1|].
+        split; [exact C3|]. split; [exact C4|]. lia. }
   (* superblock s starts at rank 4096 s, position p0 *)
   assert (Hsc : 4096 * s < c) by (apply nth_opt_Some_lt in Ep0; unfold P in Ep0; rewrite lenN_ones in Ep0; exact Ep0).
   pose proof (ones_lt_len _ _ _ Ep0) as Hp0len. rewrite t_bits_len in Hp0len.
+  (* all superblocks so far were full: nl long ones and ns short ones *)
+  assert (Hnl : exists nl ns, lenN lv = 4096 * nl /\ lenN shv = 64 * ns /\ nl + ns = s).
+  { destruct (C2 ltac:(lia)) as [M1 M2]. exists (lenN lv / 4096), (lenN shv / 64). lia. }
+  destruct Hnl as (nl & ns & Enl & Ens & Ecnt). clear C1 C2.
   change select_SUPERBLOCK_SIZE with 4096. change (4096 - 1) with 4095.
   destruct (oi_nth_spec sp m t b B (sb_sample_iter st) 4095 Hrep I12) as (sit' & E1 & Hsit_inv & Hsit_mid).
   rewrite E1. cbn [bind]. rewrite I13, nth_opt_skipN. rewrite I13, skipN_skipN in Hsit_mid.
@@ -440,7 +506,8 @@ Proof.
       rewrite Hcnt. fold c. split; [lia|]. split; [lia|]. intros r p Hrp. discriminate. }
   destruct Hlim as (Hlim0 & Hlim1 & Hlim2). clearbody limit.
   cbn [snd fst].
-  destruct (sel_iv_push _ sv p0 I1) as (samples1 & E2 & Hs1 & Hs1w); [rewrite I1w; lia|].
+  destruct (sel_iv_push_gen _ sv p0 I1) as (samples1 & E2 & Hs1 & Hs1w & XS1); [rewrite I1w; lia|].
+  specialize (XS1 X1).
   rewrite E2. cbn [bind].
   set (values := fst limit - 4096 * s).
   assert (Hvalues : values = N.min 4096 (c - 4096 * s)) by (unfold values; lia).
@@ -457,10 +524,12 @@ Proof.
     { destruct I2 as (_ & -> & _).
       apply (long_ptr_bound (lenB B) c (lenN lv) s pos (log4_of b)); try assumption; try lia.
       unfold log4_of. rewrite HL. reflexivity. }
-    destruct (sel_iv_push _ _ (2 * ilen (sb_long st)) Hs1) as (samples2 & E3 & Hs2 & Hs2w); [rewrite Hs1w, I1w; exact Hptr|].
+    destruct (sel_iv_push_gen _ _ (2 * ilen (sb_long st)) Hs1) as (samples2 & E3 & Hs2 & Hs2w & XS2); [rewrite Hs1w, I1w; exact Hptr|].
+    specialize (XS2 XS1).
     rewrite E3. cbn [bind]. fold values.
     destruct (fill_long_spec t b B Hrep (N.to_nat values) (4096 * s) p0 _ lv _ I2 I2w I15 I16)
-      as (long' & it' & lv' & E4 & Hl1 & Hl2 & Hl3 & Hl4 & Hl5 & Hl6); [fold c; lia|].
+      as (long' & it' & lv' & E4 & Hl1 & Hl2 & Hl3 & Hl4 & Hl5 & Hl6 & XL); [fold c; lia|].
+    specialize (XL X2).
     rewrite N2Nat.id in *. rewrite I14, E4. cbn [bind].
     destruct (Hafter (4096 * s + values) (or_introl eq_refl)) as [Ha1 Ha2].
     apply (IH (s + 1) _ ((sv ++ [p0]) ++ [2 * ilen (sb_long st)]) (lv ++ lv') shv (snd limit)); [|unfold nsb_of; fold c; lia|lia].
@@ -496,15 +565,24 @@ Proof.
     + exact Ha1.
     + exact Hl4.
     + rewrite Hl5. exact Ha2.
+    + exact XS2.
+    + exact XL.
+    + exact X3.
+    + rewrite lenN_app, Hl3. fold c. lia.
+    + rewrite lenN_app, Hl3. fold c. lia.
+    + rewrite lenN_app, Hl3. fold c. lia.
+    + fold c. lia.
   - (* short superblock *)
     assert (Hptr : 2 * ilen (sb_short st) + 1 < 2 ^ 64).
     { destruct I3 as (_ & -> & _). lia. }
-    destruct (sel_iv_push _ _ (2 * ilen (sb_short st) + 1) Hs1) as (samples2 & E3 & Hs2 & Hs2w); [rewrite Hs1w, I1w; exact Hptr|].
+    destruct (sel_iv_push_gen _ _ (2 * ilen (sb_short st) + 1) Hs1) as (samples2 & E3 & Hs2 & Hs2w & XS2); [rewrite Hs1w, I1w; exact Hptr|].
+    specialize (XS2 XS1).
     rewrite E3. cbn [bind]. fold values. change select_BLOCK_SIZE with 64.
     set (blocks := (values + 64 - 1) / 64).
     destruct (fill_short_spec sp m t b B Hrep (N.to_nat blocks) (4096 * s) p0 _ shv _ I3 I3w I15 I16)
-      as (short' & it' & shv' & E4 & Hl1 & Hl2 & Hl3 & Hl4 & Hl5 & Hl6).
+      as (short' & it' & shv' & E4 & Hl1 & Hl2 & Hl3 & Hl4 & Hl5 & Hl6 & XL).
     { intros j Hj. rewrite N2Nat.id in Hj. fold c. unfold blocks in Hj. lia. }
+    specialize (XL X3).
     rewrite N2Nat.id in *. rewrite I14, E4. cbn [bind].
     destruct (Hafter (4096 * s + 64 * blocks)) as [Ha1 Ha2]; [unfold blocks; lia|].
     apply (IH (s + 1) _ ((sv ++ [p0]) ++ [2 * ilen (sb_short st) + 1]) lv (shv ++ shv') pos); [|unfold nsb_of; fold c; lia|lia].
@@ -540,6 +618,13 @@ Proof.
     + exact Ha1.
     + exact Hl4.
     + rewrite Hl5. exact Ha2.
+    + exact XS2.
+    + exact X2.
+    + exact XL.
+    + rewrite lenN_app, Hl3. fold c. unfold blocks. lia.
+    + rewrite lenN_app, Hl3. fold c. unfold blocks. lia.
+    + fold c. lia.
+    + rewrite lenN_app, Hl3. fold c. unfold blocks. lia.
 Qed.
 
 (* a select support whose three arrays describe the set bits of the transformed sequence *)
@@ -548,9 +633,10 @@ Definition ss_valid (t : transf) (B : list bool) (s : select_support) : Prop :=
 
 (* SelectSupport::new succeeds on every vector, in both modes and on both select paths; the result is
    valid and has ceil(ones / 4096) superblocks. No case distinction on long / short superblocks. *)
-Theorem select_new_spec sp m t b B : bv_repr b B ->
+Theorem select_new_counts sp m t b B : bv_repr b B ->
   exists s, select_new sp m t b = Ok s /\ ss_valid t B s /\
-            ss_superblocks s = (count (t_bits t B) + 4095) / 4096.
+            ss_superblocks s = (count (t_bits t B) + 4095) / 4096 /\
+            ss_counts t b B (ss_samples s) (ss_long s) (ss_short s).
 Proof.
   intros Hrep. unfold select_new.
   destruct (oi_start_inv t b B Hrep) as [Hinv0 Hmid0].
@@ -561,7 +647,7 @@ Proof.
   change ((bit_len (bv_len b) * bit_len (bv_len b)) * (bit_len (bv_len b) * bit_len (bv_len b))) with (log4_of b).
   destruct (ss_loop_spec sp m t b B Hrep (S (S (N.to_nat (t_count_ones t b / 4096)))) 0
               (mkssb iv_default iv_default iv_default it1 (hd_error (oi_R t B)) it1 (hd_error (oi_R t B))) [] [] [] 0)
-    as (st' & E2 & sv & lv & shv & H1 & H2 & H3 & H4 & H5).
+    as (st' & E2 & (sv & lv & shv & H1 & H2 & H3 & H4 & H5) & (Y1 & Y2 & Y3 & Y4 & Y5 & Y6 & Y7 & Y8)).
   - constructor; cbn [sb_samples sb_long sb_short sb_sample_iter sb_sample sb_iter sb_value];
       try exact sel_iv_default; try reflexivity; try (cbn [lenN length]; lia).
     + rewrite nth_opt_hd. reflexivity.
@@ -570,14 +656,28 @@ Proof.
     + rewrite nth_opt_hd. reflexivity.
     + exact Hinv1.
     + rewrite Hmid1, <- (skipN_0 (oi_R t B)) at 1. rewrite tl_skipN. reflexivity.
+    + change (lenN (@nil N)) with 0. lia.
+    + change (lenN (@nil N)) with 0. lia.
   - lia.
   - unfold nsb_of. rewrite Hcnt. lia.
   - rewrite E2. cbn [bind].
-    destruct (sel_iv_pack _ _ H1) as (s1 & P1 & Hs1). destruct (sel_iv_pack _ _ H2) as (s2 & P2 & Hs2).
-    destruct (sel_iv_pack _ _ H3) as (s3 & P3 & Hs3). rewrite P1. cbn [bind]. rewrite P2. cbn [bind]. rewrite P3. cbn [bind].
-    eexists. split; [reflexivity|]. split.
+    destruct (sel_iv_pack_gen _ _ H1) as (s1 & P1 & Hs1 & Z1). destruct (sel_iv_pack_gen _ _ H2) as (s2 & P2 & Hs2 & Z2).
+    destruct (sel_iv_pack_gen _ _ H3) as (s3 & P3 & Hs3 & Z3). rewrite P1. cbn [bind]. rewrite P2. cbn [bind]. rewrite P3. cbn [bind].
+    eexists. split; [reflexivity|]. split; [|split].
     + exists sv, lv, shv. cbn [ss_samples ss_long ss_short]. auto.
     + unfold ss_superblocks. cbn [ss_samples]. destruct Hs1 as (_ & -> & _). rewrite H4. unfold nsb_of. lia.
+    + cbn [ss_samples ss_long ss_short]. unfold ss_counts.
+      assert (L1 : ilen s1 = ilen (sb_samples st')) by (destruct Hs1 as (_ & -> & _), H1 as (_ & -> & _); reflexivity).
+      assert (L2 : ilen s2 = ilen (sb_long st')) by (destruct Hs2 as (_ & -> & _), H2 as (_ & -> & _); reflexivity).
+      assert (L3 : ilen s3 = ilen (sb_short st')) by (destruct Hs3 as (_ & -> & _), H3 as (_ & -> & _); reflexivity).
+      rewrite L1, L2, L3. auto 10.
+Qed.
+
+Theorem select_new_spec sp m t b B : bv_repr b B ->
+  exists s, select_new sp m t b = Ok s /\ ss_valid t B s /\
+            ss_superblocks s = (count (t_bits t B) + 4095) / 4096.
+Proof.
+  intros Hrep. destruct (select_new_counts sp m t b B Hrep) as (s & E & V & N & _). exists s. auto.
 Qed.
 
 (* ================================================================ (5) select_unchecked *)
